@@ -61,7 +61,7 @@ func main() {
 	case "unit", "sweep":
 		names := fs.Args()
 		if cmd == "sweep" && len(names) == 0 {
-			names = e.funcNames()
+			names = e.sweepRoots()
 		}
 		opts := SolveOpts{TimeoutMs: *timeout, RecheckMs: *timeout * 2}
 		if *smt {
